@@ -1109,11 +1109,8 @@ class Curve(BaseCurve):
         fitfunc = heavy.LeastSquare.fit_function
         if nodes is None:
             umin, umax = self.knotvector.limits
-            if isinstance(umin, (int, Fraction)):
-                funcnodes = heavy.NodeSample.closed_linspace
-            else:
-                funcnodes = heavy.NodeSample.chebyshev
-            nodes_0to1 = funcnodes(len(points))
+            cls = Fraction if isinstance(umin, (int, Fraction)) else float
+            nodes_0to1 = heavy.NodeSample.closed_linspace(len(points), cls)
             nodes = tuple(umin + (umax - umin) * node for node in nodes_0to1)
         knotvector = tuple(self.knotvector)
         nodes = tuple(nodes)
